@@ -114,10 +114,31 @@ def main() -> int:
                 if fails:
                     regressions.append({"what": f"fixed finding {e['id']} fails again", "case": e["witness"],
                                         "impl": detail, "spec": "pass", "class": None})
-    except Exception:
+    except Exception as exc:
+        # An exception escaping the correspondence module.  If it was raised inside the implementation under test
+        # (a frame of the traceback lies in /repo's fieldcompare package) the implementation no longer behaves as the
+        # harness — written against the unchanged tree — relies on: that is a broken correspondence, reported as such
+        # (never silently as an infrastructure problem).  Anything else is infrastructure: exit 2.
+        tb = traceback.extract_tb(exc.__traceback__)
+        repo_pkg = os.path.join(os.path.realpath(core.REPO), "fieldcompare") + os.sep
+        in_impl = [f for f in tb if os.path.realpath(f.filename).startswith(repo_pkg)]
         traceback.print_exc()
-        print("infrastructure failure while running the check")
-        return EXIT_INFRA
+        if not in_impl:
+            print("infrastructure failure while running the check")
+            return EXIT_INFRA
+        path = core.write_replay(prop, "broken", {
+            "property": prop, "kind": "no-failing-input-found",
+            "broken": ["correspondence impl-vs-harness broken: the implementation raised an exception the check does "
+                       "not expect on any input it generates"],
+            "exception": f"{type(exc).__name__}: {exc}",
+            "raised_in": [f"{os.path.relpath(f.filename, core.REPO)}:{f.lineno} in {f.name}" for f in in_impl][-5:],
+            "traceback": traceback.format_exc()[-4000:], "theorems": core.theorem_names(prop)})
+        print(f"VIOLATION property={prop} replay={path} no-failing-input-found")
+        try:
+            core.write_evidence(ctx, obligations, 1, TRUSTED_BASE)
+        except Exception:  # noqa: BLE001
+            pass
+        return EXIT_VIOLATION
 
     # ---- verdict
     viol = list(regressions)
